@@ -3,6 +3,10 @@ CONSTANTS
   Relax = {}
   Mode = "honest"
   MaxBlocks = 2
+  Layouts = {"plain"}
+  MaxUnwind = 0
+  Features = {}
+  Defect = "none"
   MaxReload = 1
 CONSTRAINT Bounded
 VIEW View
